@@ -8,7 +8,8 @@ from ..harness import FAULT_KINDS, FAULT_KINDS_SPEC, execute
 from .. import problems as P
 
 PID = "C10"
-EXC = {"raise_rt": "Boom", "raise_key": "InjectedTargetError", "raise_noargs": "NoArgsError", "raise_intarg": "InjectedTargetError"}
+EXC = {"raise_rt": "Boom", "raise_key": "InjectedTargetError", "raise_noargs": "NoArgsError", "raise_intarg": "InjectedTargetError",
+       "raise_stopiter": "StopIteration"}
 
 
 def job(D, mode, cons, seed, fault=None, opts=None):
